@@ -64,11 +64,12 @@ wide:
 	}
 }
 
-func stringAt(str stringObjecter, index int) rune {
+// stringAt returns the code unit at index and true, or false if index is out of range.
+func stringAt(str stringObjecter, index int) (rune, bool) {
 	if 0 <= index && index < str.Length() {
-		return str.At(index)
+		return str.At(index), true
 	}
-	return utf8.RuneError
+	return 0, false
 }
 
 func (rt *runtime) newStringObject(value Value) *object {
@@ -106,7 +107,7 @@ func stringGetOwnProperty(obj *object, name string) *property {
 	}
 	// TODO Test a string of length >= +int32 + 1?
 	if index := stringToArrayIndex(name); index >= 0 {
-		if chr := stringAt(obj.stringValue(), int(index)); chr != utf8.RuneError {
+		if chr, ok := stringAt(obj.stringValue(), int(index)); ok {
 			return &property{stringValue(string(chr)), 0}
 		}
 	}
